@@ -183,6 +183,11 @@ class Cid(object):
                     # HACK: Ignore duplicate classes. Such classes can occur after `import_plugins`
                     #  has been called more than once.
                     class_to_process = None
+                elif issubclass(class_to_process, clashing_class):
+                    # A class with the same name as the class it inherits from replaces it.
+                    pass
+                elif issubclass(clashing_class, class_to_process):
+                    class_to_process = None
                 elif Cid._is_ci_pytest_class(class_to_process) or Cid._is_ci_pytest_class(clashing_class):
                     # HACK: Ignore duplicates during CI. There must be a better way to do this using
                     #  the pyproject.toml and build.yaml...
@@ -680,8 +685,8 @@ def import_plugins(folder_to_scan_for_plugins):
 
     _log.info('import plugins from "%s"', folder_to_scan_for_plugins)
     modules_to_import = set()
-    base_checks = set(checks.AbstractCheck.__subclasses__())  # @UndefinedVariable
-    base_field_formats = set(fields.AbstractFieldFormat.__subclasses__())  # @UndefinedVariable
+    base_checks = Cid._all_subclasses(checks.AbstractCheck)
+    base_field_formats = Cid._all_subclasses(fields.AbstractFieldFormat)
     pattern_to_scan = os.path.join(folder_to_scan_for_plugins, "*.py")
     for module_to_import_path in glob.glob(pattern_to_scan):
         module_name = os.path.splitext(os.path.basename(module_to_import_path))[0]
@@ -694,7 +699,7 @@ def import_plugins(folder_to_scan_for_plugins):
         loaded_module = importlib.util.module_from_spec(spec)
         loader.exec_module(loaded_module)
         _imported_plugin_modules.append(loaded_module)
-    current_checks = set(checks.AbstractCheck.__subclasses__())  # @UndefinedVariable
-    current_field_formats = set(fields.AbstractFieldFormat.__subclasses__())  # @UndefinedVariable
+    current_checks = Cid._all_subclasses(checks.AbstractCheck)
+    current_field_formats = Cid._all_subclasses(fields.AbstractFieldFormat)
     log_imported_items("fields", base_field_formats, current_field_formats)
     log_imported_items("checks", base_checks, current_checks)
